@@ -7,11 +7,11 @@ LEAN_MODULE = "Ucfg.Props.C17"
 LEVEL_TEXT = 'value_never_panics and invalid_config_rejected for every string and config, plain-string scanner theorems; Spec.C17 (JSON documents parse to their value) as oracle; render/parse round trip compared (partial); known finding D4.'
 CORRESPONDENCE = "Parse.valueWithConfig ~ parse.Value / parse.ValueWithConfig"
 RULE = ("(a) kind 'json': random JSON documents (nesting <= 5; strings over quotes, backslashes incl. trailing, controls, non-ASCII, "
-        "astral; integer/float literals incl. 64-bit boundaries) rendered compact, indented and with random extra whitespace; "
+        "astral; integer/float literals incl. 64-bit boundaries) rendered compact, indented (LF and CRLF) and with random extra whitespace incl. CR, VT, FF and Unicode spaces; "
         "oracle = equality with the data the document denotes (Spec.C17.expected). (b) kind 'parse': exhaustive short strings over "
         "the scanner's special characters under every parse.Config (valid and invalid) and random flag-style values; compared with the "
         "model. Plus: parse.Value after other uses of the library in the same process (splices read under IgnoreCommas that fail inside the parser; -D key=value flags of the flag package), with a check that package-level parser state is unchanged. Non-trivial: a document with at least one container or escape, or a string with a special character. Distinct by "
-        "(layout, shape class, config, outcome).")
+        "(layout, shape class, config, outcome). (c) IgnoreCommas: one to three values (quoted, bracketed, plain) joined by top-level commas under six configs with IgnoreCommas, and exhaustive short strings containing a comma: oracle = no list unless the text is a single bracketed array (D49).")
 TRUSTED_BASE = ["Lean 4 kernel", "extractor: stop sets, bool keywords, parse.*Config literals",
                 "strconv.ParseFloat as a parameter (Stdlib.parseFloat; answered by the real stdlib during the run)",
                 "strconv.Unquote / ParseInt / ParseUint modelled exactly (Model/Parse.lean, Base/IntLit.lean), validated differentially",
@@ -64,6 +64,8 @@ def render(j, rng, layout):
             return ""
         if layout == "indent":
             return ""
+        if layout == "crlf":
+            return rng.pick(["", "\r\n", "\r", "\r\n  ", " \r", "\x0b", "\x0c", "\u00a0", "\u2003", "\u3000", "\u0085"])
         return rng.pick(["", " ", "  ", "\n", "\t", " \n "])
 
     def go(v, ind):
@@ -110,8 +112,12 @@ def gen(rng, tier):
     n = 1500 if tier == "quick" else 15000
     for _ in range(n):
         j = rand_json(rng, 1 + rng.below(5))
-        layout = rng.pick(["compact", "indent", "ws"])
+        layout = rng.pick(["compact", "indent", "ws", "crlf"])
         c = {"k": "json", "json": j, "s": render(j, rng, layout), "_tag": "json/" + layout}
+        if layout == "indent" and rng.chance(0.3):
+            # the same indented document with CRLF line endings
+            c["s"] = c["s"].replace("\n", "\r\n")
+            c["_tag"] = "json/indent-crlf"
         if rng.chance(0.2):
             # IgnoreCommas only concerns a top-level comma: a document (which has none) parses to the same data
             c["cfg"] = {"ignoreCommas": True}
@@ -135,6 +141,50 @@ def gen(rng, tier):
         s = "".join(rng.pick(SPECIAL + ["true", "null", "0x1f", "1.5", "on", '"a\\"b"', "\\\\", "\\u00e9", "\\x41", "\\101", "\\q"]) for _ in range(1 + rng.below(7)))
         yield {"k": "parse", "s": s, "cfg": rng.pick(cfgs), "_tag": "parse/random"}
     yield from gen_after_use(rng.fork("after-use"), m // 6)
+    yield from gen_ignore_commas(rng.fork("ignore-commas"), m // 3, tier)
+
+
+def gen_ignore_commas(rng, n, tier):
+    """IgnoreCommas: a top-level comma builds no list, whatever the first value is (quoted, bracketed, plain)"""
+    firsts = ['"a"', "'a'", "[1]", "[1,2]", "{a: 1}", '{"a":1}', "a", "1", '"a,b"', "[]", "{}", "null", '""']
+    full = {"ignoreCommas": True}
+    cfgs = [full, full, {"ignoreCommas": True, "object": False}, {"ignoreCommas": True, "dq": False},
+            {"ignoreCommas": True, "sq": False}, {"ignoreCommas": True, "array": False, "object": False}]
+    for _ in range(n):
+        parts = [rng.pick(firsts) for _ in range(1 + rng.below(3))]
+        sep = rng.pick([",", ", ", " ,", " , "])
+        yield {"k": "parse", "s": sep.join(parts) + rng.pick(["", "", ",", " "]), "cfg": rng.pick(cfgs), "_tag": "parse/ignore-commas"}
+    alpha = list("[]{}\",:a1 '")
+    L = 4 if tier == "thorough" else 3
+
+    def rec(prefix, depth):
+        yield prefix
+        if depth < L:
+            for ch in alpha:
+                yield from rec(prefix + ch, depth + 1)
+    for s0 in rec("", 0):
+        if "," in s0:
+            yield {"k": "parse", "s": s0, "cfg": full, "_tag": "parse/exh-ignore-commas"}
+
+
+def comma_built_list(s, cfg):
+    """True when the text, read under cfg, can only have become a list through a top-level comma; None when this
+    oracle does not decide (quotes or escapes inside a leading bracket)."""
+    t = s.strip()
+    array_on = cfg.get("array", True)
+    if not (array_on and t.startswith("[")):
+        return True
+    if any(ch in t for ch in "\"'\\"):
+        return None
+    depth = 0
+    for i, ch in enumerate(t):
+        if ch == "[" or (ch == "{" and cfg.get("object", True)):
+            depth += 1
+        elif ch == "]" or (ch == "}" and cfg.get("object", True)):
+            depth -= 1
+            if depth == 0:
+                return t[i + 1:].strip() != ""
+    return None
 
 
 def gen_after_use(rng, n):
@@ -159,6 +209,10 @@ def gen_after_use(rng, n):
 def oracle(case, impl, model):
     if isinstance(impl, dict) and "stateChanged" in impl:
         return (False, "using the library changed package state (%s): what parse.Value returns now depends on earlier calls" % impl["stateChanged"])
+    cfg = case.get("cfg") or {}
+    if case.get("k") == "parse" and cfg.get("ignoreCommas") and isinstance(impl, dict) and isinstance(impl.get("ok"), dict) and "a" in impl["ok"]:
+        if comma_built_list(case["s"], cfg):
+            return (False, "IgnoreCommas is set and a top-level comma still built a list of %d values" % len(impl["ok"]["a"]))
     return None
 
 
